@@ -160,6 +160,7 @@ class Runner:
                 env2, ev2 = dict(env), ev
                 for t in tgts:
                     if isinstance(t, ast.Name):
+                        env2 = _prime(env2, t.id)
                         env2[t.id] = v
                     elif isinstance(t, ast.Subscript):
                         k = _Sub(env).visit(_cp(t.slice))
@@ -172,8 +173,13 @@ class Runner:
         if isinstance(st, ast.AugAssign):
             out = []
             for cs, v in self._expr(st.value, env, cases):
-                out.append((env, cs, ev + (("aug", _txt(st.target), type(st.op).__name__,
-                                            _txt(v)),), False))
+                env2 = env
+                if isinstance(st.target, ast.Name):
+                    # values computed from the old value of the target keep it: the
+                    # old value is written <name>'
+                    env2 = _prime(env, st.target.id)
+                out.append((env2, cs, ev + (("aug", _txt(st.target), type(st.op).__name__,
+                                             _txt(v)),), False))
             return out
         if isinstance(st, ast.Expr):
             if isinstance(st.value, ast.Constant):
@@ -215,6 +221,21 @@ class Runner:
         if isinstance(st, ast.Raise):
             return [(env, cases, ev + (("exit", "raise"),), True)]
         return [(env, cases, ev + (("opaque", type(st).__name__),), False)]
+
+
+def _prime(env, name):
+    """env in which every recorded value that mentions ``name`` mentions ``name'``
+    (its value before the update) instead"""
+    class P_(ast.NodeTransformer):
+        def visit_Name(self, x):
+            return ast.Name(id=name + "_OLD", ctx=x.ctx) if x.id == name else x
+    out = {}
+    for k, v in env.items():
+        if any(isinstance(x, ast.Name) and x.id == name for x in ast.walk(v)):
+            out[k] = P_().visit(_cp(v))
+        else:
+            out[k] = v
+    return out
 
 
 class _Replace(ast.NodeTransformer):
